@@ -54,6 +54,9 @@ func Boot() {
 		config.SetServerChainID(config.GetMainChainID())
 		setupsc.SetupSmartContracts()
 		common.SetupRootContext(context.Background())
+		// context.Done() creates its channel lazily: create it here, outside any synctest
+		// bubble, or worker goroutines started by Boot would later select on a bubbled channel
+		_ = common.GetRootContext().Done()
 		Store = wkit.NewMemStore()
 		transaction.SetupEntity(Store)
 		block.SetupEntity(Store)
